@@ -59,6 +59,9 @@ pub const LOSING: &[SPos] = &[
     SPos { name: "facing-mate-in-2-w", fen: "7K/8/5k2/6q1/8/8/8/8 w - - 0 1", history: "" },
     SPos { name: "facing-back-rank-w", fen: "r3k3/8/8/8/8/8/5PPP/6K1 w q - 0 1", history: "" },
     SPos { name: "facing-ladder-b", fen: "7k/8/8/8/8/8/R7/1R4K1 b - - 0 1", history: "" },
+    // in check, a single legal reply, after which the opponent mates in one; the first generated king move is illegal
+    SPos { name: "forced-into-mate-w", fen: "8/8/8/8/8/8/5k2/4q2K w - - 0 1", history: "" },
+    SPos { name: "forced-into-mate-b", fen: "4Q2k/5K2/8/8/8/8/8/8 b - - 0 1", history: "" },
 ];
 
 /// Positions whose search stays tiny at any depth (forced mates, a single legal move): searched
